@@ -42,6 +42,12 @@ package state
 //@   ensures err == nil ==> kvHas(EntityKey(ent.ID)) && kvWrites() > old(kvWrites())
 //@   ensures err == nil ==> (forall k int :: k != EntityKey(ent.ID) ==> kvHas(k) == old(kvHas(k)) && kvVal(k) == old(kvVal(k)))
 
+//@ func MutableState.SetNodeStatus
+//@   modifies kvState()
+//@   props C17
+//@   ensures err != nil ==> unavail(err)
+//@   note writes the node status record only (state tree)
+
 //@ func MutableState.RemoveEntity
 //@   modifies kvState()
 //@   props C17 C08
